@@ -195,24 +195,18 @@ Definition fixed_core (size : Z) (sign : bool) (u : Z) : bytes :=
   else
     repeat 0 (Z.to_nat (offset_bits / 8)) ++ be_loop (Z.to_nat bytes_req) u.
 
-(** [repaired = false]: the code as it is.
-    [repaired = true]: the recommended repair --
-        if bits_req > size_in_bits: raise ValueError(...)        (value does not fit)
-        if sign and unscaled_datum:  (instead of  if sign:)      (negative zero is zero) *)
-Definition prepare_fixed_decimal_gen (repaired : bool)
-    (precision scale size : Z) (sign : bool) (ds : list Z) (exp : Z) : res bytes :=
+(** prepare_fixed_decimal as it is in /repo now (after the repair eff0ba2):
+      if bits_req > size_in_bits: raise ValueError(...)            (the value does not fit)
+      if sign and unscaled_datum: ... two's complement ... else ...  (negative zero is zero)
+    The converter before the repair is kept in model/LogicalOld.v. *)
+Definition prepare_fixed_decimal (precision scale size : Z) (sign : bool) (ds : list Z) (exp : Z) : res bytes :=
   if len ds >? precision then Err else                 (* ValueError *)
   if - exp >? scale then Err else                      (* ValueError *)
   let delta := exp + scale in
   let ds := if delta >? 0 then ds ++ repeat 0 (Z.to_nat delta) else ds in
   let u := digits_val ds in
-  if repaired then
-    if bit_length u + 1 >? size * 8 then Err
-    else Ok (fixed_core size (sign && negb (u =? 0)) u)
-  else Ok (fixed_core size sign u).
-
-Definition prepare_fixed_decimal := prepare_fixed_decimal_gen false.
-Definition prepare_fixed_decimal_fixed := prepare_fixed_decimal_gen true.
+  if bit_length u + 1 >? size * 8 then Err             (* ValueError *)
+  else Ok (fixed_core size (sign && negb (u =? 0)) u).
 
 (* _write_py.write_fixed: if len(datum) != schema["size"]: raise ValueError *)
 Definition write_fixed (size : Z) (datum : bytes) : res bytes :=
@@ -223,11 +217,9 @@ Definition write_fixed (size : Z) (datum : bytes) : res bytes :=
 Definition write_bytes_decimal (precision scale : Z) sign ds exp : res bytes :=
   prepare_bytes_decimal precision scale sign ds exp.
 
-Definition write_fixed_decimal_gen (repaired : bool) (precision scale size : Z) sign ds exp : res bytes :=
-  let* bs := prepare_fixed_decimal_gen repaired precision scale size sign ds exp in
+Definition write_fixed_decimal (precision scale size : Z) sign ds exp : res bytes :=
+  let* bs := prepare_fixed_decimal precision scale size sign ds exp in
   write_fixed size bs.
-Definition write_fixed_decimal := write_fixed_decimal_gen false.
-Definition write_fixed_decimal_fixed := write_fixed_decimal_gen true.
 
 (** read_decimal: int.from_bytes, then decimal_context.create_decimal(unscaled) with
     prec = precision (round-half-even to [precision] significant digits) and .scaleb(-scale).
@@ -326,14 +318,14 @@ Definition c_dec_bytes (x : Z * Z * bool * list Z * Z) : string :=
   let '(p, sc, sg, ds, e) := x in
   let w := write_bytes_decimal p sc sg ds e in
   bar (show_res show_hexbytes w) (c_read_back p sc w).
-Definition c_dec_fixed (repaired : bool) (x : Z * Z * Z * bool * list Z * Z) : string :=
+Definition c_dec_fixed (x : Z * Z * Z * bool * list Z * Z) : string :=
   let '(p, sc, size, sg, ds, e) := x in
-  let w := write_fixed_decimal_gen repaired p sc size sg ds e in
+  let w := write_fixed_decimal p sc size sg ds e in
   bar (show_res show_hexbytes w) (c_read_back p sc w).
 (* the converter alone, without write_fixed's length check *)
-Definition c_prep_fixed (repaired : bool) (x : Z * Z * Z * bool * list Z * Z) : string :=
+Definition c_prep_fixed (x : Z * Z * Z * bool * list Z * Z) : string :=
   let '(p, sc, size, sg, ds, e) := x in
-  show_res show_hexbytes (prepare_fixed_decimal_gen repaired p sc size sg ds e).
+  show_res show_hexbytes (prepare_fixed_decimal p sc size sg ds e).
 Definition c_read_dec (x : Z * Z * bytes) : string :=
   let '(p, sc, bs) := x in show_res show_dec (read_decimal p sc bs).
 Definition c_uuid (n : Z) : string := bar (uuid_str n) (show_Z (uuid_parse (uuid_str n))).
